@@ -165,6 +165,11 @@ func (d *dispatcher) RemoveHTTPCache(key []byte) {
 	lru := d.getLRU(key)
 	lru.mu.Lock()
 	defer lru.mu.Unlock()
+	// 如果该缓存正在fetching，删除后其完成时不应再写入store，
+	// 否则已清除的缓存会被后续请求从store中重新加载
+	if hc, ok := lru.getCache(key); ok {
+		hc.detachStore()
+	}
 	lru.removeCache(key)
 	if d.store != nil {
 		err := d.store.Delete(key)
